@@ -691,6 +691,32 @@ func registerLibIntrinsics() {
 		return nil, true
 	}
 
+	sortSlice := func(in *Interp, fr *frame, args []Value) (Value, bool) {
+		it, _ := args[0].(Iface)
+		sl, ok := it.V.(Slice)
+		if !ok || sl.symLen != nil {
+			in.unsupported("sort.Slice of %T", it.V)
+		}
+		if sl.arr == nil || sl.n < 2 {
+			return nil, true
+		}
+		el := (*sl.arr)[sl.off : sl.off+sl.n]
+		// insertion sort driven by the program's own less function (stable: ties keep their input order,
+		// which is one of the outcomes the unstable library sort may produce)
+		for i := 1; i < len(el); i++ {
+			for j := i; j > 0; j-- {
+				lt := in.call(fr, args[1], []Value{Int(j), Int(j - 1)}, nil, false)
+				if !in.branch(lt, "sort.Slice less") {
+					break
+				}
+				el[j], el[j-1] = el[j-1], el[j]
+			}
+		}
+		return nil, true
+	}
+	I["sort.Slice"] = sortSlice
+	I["sort.SliceStable"] = sortSlice
+
 	// bytes.Buffer as a side object holding a Str
 	buf := func(in *Interp, v Value) *Obj {
 		p, _ := v.(*Value)
